@@ -100,6 +100,25 @@ fn is_ambiguous(s: &str) -> bool {
         return true;
     }
 
+    // Whatever the reader's own number parsers accept (they are more lenient than the pattern
+    // above: separators may lead, as in "_0", and legacy octal spellings exist) must be quoted
+    // too, or the string would read back as a number in untyped or numeric contexts.
+    let location = crate::Location::UNKNOWN;
+    if crate::parse_scalars::parse_int_signed::<i128>(s, "i128", location, true).is_ok()
+        || crate::parse_scalars::parse_int_signed::<i128>(s, "i128", location, false).is_ok()
+        || crate::parse_scalars::parse_int_unsigned::<u128>(s, "u128", location, true).is_ok()
+        || crate::parse_scalars::parse_int_unsigned::<u128>(s, "u128", location, false).is_ok()
+        || crate::parse_scalars::parse_yaml12_float::<f64>(
+            s,
+            location,
+            crate::tags::SfTag::None,
+            false,
+        )
+        .is_ok()
+    {
+        return true;
+    }
+
     false
 }
 
